@@ -105,6 +105,45 @@ theorem C17_visited_in_bounds (nodeCount dense : Nat) (h : dense < nodeCount) :
 unchecked access uses it -/
 theorem C17_neighbour_ids_guarded : unguardedNeighbourSites = [] := by decide
 
+/-- lint result: the index of every `neighbor_unchecked(d, E)` call is bounded by the record's own
+neighbour count (`for E in 0..neighbor_count` / `if E < neighbor_count`, the count read with
+`count_unchecked` from the same record or handed down by such a caller) -/
+theorem C17_neighbour_indices_guarded : unguardedIndexSites = [] := by decide
+
+/-- … and an index below the record's count (which `set_neighbors` clamps to `cap`) reads a slot of
+that record, never the vector payload, the padding or the next record -/
+theorem C17_guarded_index_in_bounds (cap dimension n dense idx count : Nat) (h : dense < n)
+    (hcount : count ≤ cap) (hi : idx < count) :
+    neighborIdx (recordWords cap dimension) dense idx < dataLenAfter (recordWords cap dimension) n :=
+  (C17_neighbor_in_bounds cap dimension n dense idx h (Nat.lt_of_lt_of_le hi hcount)).1
+
+/-- why the look-ahead needs its guard: with the neighbour list full (count = cap), dimension 1 and a
+record without padding (cap + 2 words, e.g. M = 7: cap = 14), the slot two past the last neighbour
+of the LAST record is the first word outside `data` -/
+theorem C17_unguarded_lookahead_leaves_data :
+    recordWords 14 1 = 16 ∧ neighborIdx (recordWords 14 1) 2 (13 + 2) = dataLenAfter (recordWords 14 1) 3 := by
+  decide
+
+/-- lint result: every raw-pointer `.add(` in ann_backend.rs is one of the two with a bounds theorem
+(`vector_at_unchecked`: `C17_vector_in_bounds`; `record_ptr`: `C17_record_ptr_in_bounds`).  Pointer
+arithmetic past the allocation is undefined even when the pointer is only handed to a prefetch. -/
+theorem C17_pointer_arithmetic_bounded : unboundedPointerAddSites = [] := by decide
+
+/-- `record_ptr` of a stored node points inside `data` -/
+theorem C17_record_ptr_in_bounds (cap dimension n dense : Nat) (h : dense < n) :
+    recordPtrStart (recordWords cap dimension) dense < dataLenAfter (recordWords cap dimension) n := by
+  rw [dataLenAfter_eq]
+  have h1 := recordWords_pos cap dimension
+  have h2 := record_end (recordWords cap dimension) n dense h
+  unfold recordPtrStart
+  omega
+
+/-- why a fixed look-ahead of cache lines from `record_ptr` needs wrapping arithmetic: a one-line
+record (dimension 1, M = 7: 16 words = 64 bytes) at the end of `data` has nothing behind it, so
+record start + 2 cache lines (32 words) lies beyond one-past-the-end -/
+theorem C17_prefetch_lines_leave_allocation :
+    recordPtrStart (recordWords 14 1) 2 + 32 > dataLenAfter (recordWords 14 1) 3 := by decide
+
 /-- non-vacuity: a real configuration (M0 = 32, dimension 13, three nodes) -/
 example : vectorStart (recordWords 32 13) (vectorOffsetWords 32) 2 + vectorLen 13
     ≤ dataLenAfter (recordWords 32 13) 3 := C17_vector_in_bounds 32 13 3 2 (by omega)
